@@ -121,19 +121,22 @@ type Chain struct {
 	ModelIDs []int64 `json:"modelids,omitempty"` // Model(&[]X{{ID: a}, {ID: b}}) (updates)
 	Unscoped bool    `json:"unscoped,omitempty"`
 
-	SelCols   []string `json:"selcols,omitempty"`
-	Sel       *Tmpl    `json:"sel,omitempty"`
-	Joins     []Join   `json:"joins,omitempty"`
-	Conds     []Cond   `json:"conds,omitempty"`
-	Group     string   `json:"group,omitempty"`
-	Having    *Unit    `json:"having,omitempty"`
-	OrderStr  string   `json:"orderstr,omitempty"`
-	OrderExpr *Tmpl    `json:"orderexpr,omitempty"`
-	Limit     int      `json:"limit,omitempty"`
-	Offset    int      `json:"offset,omitempty"`
-	LimitCl   bool     `json:"limitcl,omitempty"` // Limit/Offset given as Clauses(clause.Limit{…})
-	Lock      bool     `json:"lock,omitempty"`
-	Returning bool     `json:"returning,omitempty"`
+	SelCols []string `json:"selcols,omitempty"`
+	Sel     *Tmpl    `json:"sel,omitempty"`
+	Joins   []Join   `json:"joins,omitempty"`
+	Conds   []Cond   `json:"conds,omitempty"`
+	Group   string   `json:"group,omitempty"`
+	Having  *Unit    `json:"having,omitempty"`
+	// PreHavings / PreOrders: Having / Order(string) calls made before Having / OrderStr, each by a call of its own
+	PreHavings []Unit   `json:"prehavings,omitempty"`
+	PreOrders  []string `json:"preorders,omitempty"`
+	OrderStr   string   `json:"orderstr,omitempty"`
+	OrderExpr  *Tmpl    `json:"orderexpr,omitempty"`
+	Limit      int      `json:"limit,omitempty"`
+	Offset     int      `json:"offset,omitempty"`
+	LimitCl    bool     `json:"limitcl,omitempty"` // Limit/Offset given as Clauses(clause.Limit{…})
+	Lock       bool     `json:"lock,omitempty"`
+	Returning  bool     `json:"returning,omitempty"`
 
 	Fin      string `json:"fin,omitempty"` // find first take last count pluck scan row rows batches
 	Inline   *Unit  `json:"inline,omitempty"`
@@ -402,8 +405,14 @@ func (c *Chain) String() string {
 	if c.Group != "" {
 		b.WriteString(".Group(" + c.Group + ")")
 	}
+	for _, h := range c.PreHavings {
+		b.WriteString(".Having(" + h.String() + ")")
+	}
 	if c.Having != nil {
 		b.WriteString(".Having(" + c.Having.String() + ")")
+	}
+	for _, o := range c.PreOrders {
+		b.WriteString(".Order(" + strconv.Quote(o) + ")")
 	}
 	if c.OrderStr != "" {
 		b.WriteString(".Order(" + strconv.Quote(c.OrderStr) + ")")
